@@ -133,6 +133,11 @@ def templates():
     t["fused-rings"] = fused_rings(W)
     t["fused-rings-hash-end"] = fused_rings(HE)
     t["fused-rings-quaternary"] = fused_rings(H, quaternary=True)
+    # every bond order a drawing can state (an Order attribute of 1..6 and 1.5), no stereo marks
+    nodes, bonds = chain(8)
+    t["bond-orders"] = (nodes, [(a, b, d, o) for (a, b, d), o in zip(bonds, ("1", "2", "3", "4", "5", "6", "1.5"))])
+    nodes, bonds = chain(4, (1, 2))
+    t["bond-orders-metal-metal"] = (nodes, [(a, b, d, o) for (a, b, d), o in zip(bonds, ("1", "4", "1", "2", "5"))])
     return t
 
 
@@ -167,8 +172,9 @@ def document(angle_deg=0.0, reflect=False, origin=(200.0, 300.0), pitch=260.0, p
         out.append(f'<fragment id="{base}" BoundingBox="{_fmt(min(xs))} {_fmt(min(ys))} {_fmt(max(xs))} {_fmt(max(ys))}">')
         for i in nodes:
             out.append(f'<n id="{ids[i]}" p="{_fmt(xy[i][0])} {_fmt(xy[i][1])}"/>')
-        for (B, E, d) in bonds:
-            out.append(f'<b id="{nid}" B="{ids[B]}" E="{ids[E]}"' + (f' Display="{d}"' if d else "") + "/>")
+        for (B, E, d, *order) in bonds:
+            out.append(f'<b id="{nid}" B="{ids[B]}" E="{ids[E]}"' + (f' Order="{order[0]}"' if order and order[0] != "1" else "")
+                       + (f' Display="{d}"' if d else "") + "/>")
             nid += 1
         out.append("</fragment>")
         ly = max(ys) + 25.0
